@@ -45,6 +45,15 @@ fn stage(i: &Input, c: &mut Case) -> Result<(), String> {
         1 => 1 + t.below(7),
         _ => 8 + t.below(40),
     };
+    // what the reader is told to tolerate is no part of the statement: junk stays junk as long as invalid ids are not tolerated, and
+    // recovery must lose nothing under any of those configurations (drawn last so that recorded tapes keep their meaning)
+    let tolerate: u8 = match t.weighted(&[3, 1, 1, 1]) {
+        0 => 0,
+        1 => TOL_HIER,
+        2 => TOL_OVER,
+        _ => TOL_HIER | TOL_OVER,
+    };
+    c.label_if(tolerate != 0, "tolerant_configuration");
     c.label_if(capacity.is_some(), "small_capacity");
     c.label_if(chunk > 0, "chunked_source");
     c.label(if d.spec.is_rich() { "spec_macro_derived" } else { "spec_generated" });
@@ -82,7 +91,7 @@ fn stage(i: &Input, c: &mut Case) -> Result<(), String> {
                 }
             };
             let ctx = |m: String, hist: &Vec<String>| format!("{}\n  junk {} inserted at offset {} (precondition {})\n  history: {}\n  undamaged: {}\n  doc: {}", m, hex(&junk), p, pre, hist.join(", "), render_obs(&u), render_forest(&d.forest));
-            let cfg = ReadCfg { max_size: safe_max_size(&dmg, MaxSize::Untouched).0, capacity, ..ReadCfg::default() };
+            let cfg = ReadCfg { max_size: safe_max_size(&dmg, MaxSize::Untouched).0, capacity, tolerate, ..ReadCfg::default() };
             // source: one slice, or the damaged stream handed out in small reads (so that the scan has to refill the buffer)
             let steps: Vec<RStep> = if chunk == 0 { vec![] } else { (0..dmg.len().div_ceil(chunk)).map(|_| RStep::Chunk(chunk)).collect() };
             let mut rd = match Rd::<T, _>::new(ScriptRead::new(&dmg[..], steps), &cfg) {
@@ -232,6 +241,7 @@ pub fn run(rc: &mut RunCtx) {
     rc.require_label("junk_at_every_boundary", "pre_true_depth2plus", 50_000);
     rc.require_label("junk_at_every_boundary", "pre_false", 50_000);
     rc.require_label("junk_at_every_boundary", "small_capacity", 200_000);
+    rc.require_label("junk_at_every_boundary", "tolerant_configuration", 200_000);
     rc.require_label("junk_at_every_boundary", "chunked_source", 200_000);
     if !rc.quick() {
         rc.run_fuzz(Some(STAGES[0]), 250);
